@@ -271,6 +271,8 @@ func direct(c *hcase, ob *obs) []pfail {
 	add := func(k, f string, a ...interface{}) { fs = append(fs, pfail{k, fmt.Sprintf(f, a...)}) }
 	for _, p := range ob.panics {
 		switch {
+		case strings.Contains(p, "did not return"):
+			add("FileLogger.call:hang", "%s", p)
 		case strings.Contains(p, " read: "):
 			add("FileLogger.Read:panic", "%s", p)
 		case strings.HasPrefix(p, "NewFileLogger"):
@@ -302,6 +304,9 @@ func direct(c *hcase, ob *obs) []pfail {
 	}
 	for i := range c.Ops {
 		o := &c.Ops[i]
+		if ob.outs[i] == "timeout" || ob.outs[i] == "" {
+			break // the history stopped here
+		}
 		if ob.outs[i] == "panic" {
 			continue
 		}
